@@ -191,7 +191,7 @@ def h_map_get(ex, name, args, path, depth, caller):
         return
     has, val = m.lookup(key)
     # insertions made on this path (BTreeMap::insert on a symbolic map): the latest matching one wins
-    ov = path.stores.get((m.path, "overrides")) if isinstance(m, MapV) else None
+    ov = map_overrides(path, m) if isinstance(m, MapV) else None
     if ov:
         kt = m.key_term(key)
         if not isinstance(val, FloatV):
@@ -200,6 +200,29 @@ def h_map_get(ex, name, args, path, depth, caller):
             has = z3.Or(kt == k_i, has)
             val = FloatV(z3.If(kt == k_i, v_i.t, val.t), z3.BoolVal(False))
     yield from fork(ex, path, has, lambda: some(RefV(val)), NONE)
+
+
+def map_overrides(path, m):
+    """[(key term, value)] written into the symbolic map m on this path: inserts, then stores through get_mut references"""
+    ov = list(path.stores.get((m.path, "overrides")) or [])
+    for k, v in path.stores.items():
+        if k[0] == m.path and isinstance(k[1], tuple) and k[1][0] == "slot":
+            ov.append((k[1][1], v))
+    return ov
+
+
+def h_map_get_mut_sym(ex, name, args, path, depth, caller):
+    """BTreeMap::get_mut on a symbolic configuration map with number values: a reference whose assignment is recorded"""
+    m = get_map(ex, args[0])
+    if not isinstance(m, MapV):
+        return NotImplemented
+    key = deref(args[1])
+    has, val = m.lookup(key)
+    kt = m.key_term(key)
+    for k_i, v_i in map_overrides(path, m):
+        has = z3.Or(kt == k_i, has)
+        val = FloatV(z3.If(kt == k_i, v_i.t, val.t), z3.BoolVal(False))
+    return fork(ex, path, has, lambda: some(RefV(val, loc=(m.path, ("slot", kt)))), NONE)
 
 
 def h_map_insert_sym(ex, name, args, path, depth, caller):
@@ -263,7 +286,12 @@ def h_to_uppercase(ex, name, args, path, depth, caller):
 
 
 def closure_fn(ex, name):
-    m = re.search(r"\{closure@([^}]*)\}", name)
+    # the closure passed to the method is among the method's own generic arguments (after the last ">::"), not among
+    # the closures that are part of the receiver's type (Filter<Chars, {closure}>::map::<_, {closure}>)
+    idx = name.rfind(">::")
+    m = re.search(r"\{closure@([^}]*)\}", name[idx:]) if idx >= 0 else None
+    if not m:
+        m = re.search(r"\{closure@([^}]*)\}", name)
     if not m:
         raise Unsupported("closure in " + name)
     key = "{closure@%s}" % m.group(1)
@@ -338,6 +366,15 @@ def h_result_unwrap(ex, name, args, path, depth, caller):
 
 
 def h_f64_pred(ex, name, args, path, depth, caller):
+    if name.endswith("is_finite") or name.endswith("is_normal"):
+        a = deref(args[0])
+        ok = z3.Not(z3.Or(ex.f_is_special(a, "inf"), ex.f_is_special(a, "nan")))
+        if name.endswith("is_normal"):
+            if ex.mode == "fp":
+                raise Unsupported("is_normal in fp mode")
+            ok = z3.And(ok, a.t != 0)      # real relaxation: no subnormals, zero is the only finite non-normal value
+        yield Outcome("return", path, ok)
+        return
     which = "inf" if name.endswith("is_infinite") else "nan"
     yield Outcome("return", path, ex.f_is_special(args[0], which))
 
@@ -399,6 +436,14 @@ def int_binop(ex, path, op, a, b, caller):
     good = path.add(ok)
     if ex.feasible(good):
         yield Outcome("return", good, IntV(r, a.bits, a.signed))
+
+
+def h_int_saturating(ex, name, args, path, depth, caller):
+    a, b = deref(args[0]), deref(args[1])
+    op = name.split("::")[-1]
+    r = a.t - b.t if op == "saturating_sub" else a.t + b.t
+    r = z3.If(r < a.lo(), a.lo(), z3.If(r > a.hi(), a.hi(), r))
+    yield Outcome("return", path, IntV(z3.simplify(r), a.bits, a.signed))
 
 
 def h_int_op_ref(ex, name, args, path, depth, caller):
@@ -690,10 +735,11 @@ def install(ex):
     add(r"^core::option::Option::<.*>::cloned$", h_option_cloned)
     add(r"^core::option::Option::<.*>::(is_some|is_none)$", h_option_is_some)
     add(r"^(core::result::)?Result::<.*>::unwrap$", h_result_unwrap)
-    add(r"^(core::|std::)?f64::<impl f64>::(is_infinite|is_nan)$", h_f64_pred)
+    add(r"^(core::|std::)?f64::<impl f64>::(is_infinite|is_nan|is_finite|is_normal)$", h_f64_pred)
     add(r"^(core::|std::)?f64::<impl f64>::(round|trunc|abs|floor|fract)$", h_f64_round)
     add(r"^<(&)?(i8|i16|i32|i64|isize|u8|u16|u32|u64|usize) as (Mul|Add|Sub|Div|Rem)<(&)?(i8|i16|i32|i64|isize|u8|u16|u32|u64|usize)>>::(mul|add|sub|div|rem)$", h_int_op_ref)
     add(r"^<(i8|i16|i32|i64|isize|u8|u16|u32|u64|usize) as (Mul|Add|Sub|Div|Rem)Assign<(&)?(i8|i16|i32|i64|isize|u8|u16|u32|u64|usize)>>::(mul|add|sub|div|rem)_assign$", h_int_op_assign)
+    add(r"^core::num::<impl (i8|i16|i32|i64|isize|u8|u16|u32|u64|usize)>::saturating_(sub|add)$", h_int_saturating)
     add(r"^<f64 as (Mul|Add|Sub|Div)<&f64>>::(mul|add|sub|div)$", h_f64_mul_ref)
     add(r"^<&f64 as (Mul|Add|Sub|Div)<(&)?f64>>::(mul|add|sub|div)$", h_f64_mul_ref)
     add(r"^TypeId::of::<.*>$", h_typeid_of)
@@ -856,6 +902,12 @@ def h_and_hms(ex, name, args, path, depth, caller):
 
 def h_time_from_hms(ex, name, args, path, depth, caller):
     yield from hms_checked(ex, path, args[0], args[1], args[2], caller, "NaiveTime::from_hms", lambda sod: TimeV(sod))
+
+
+def h_time_from_hms_opt(ex, name, args, path, depth, caller):
+    h, m, s_ = deref(args[0]), deref(args[1]), deref(args[2])
+    ok = z3.And(h.t < 24, m.t < 60, s_.t < 60)
+    yield from fork(ex, path, ok, lambda: some(TimeV(h.t * 3600 + m.t * 60 + s_.t)), NONE)
 
 
 def h_ndt_new(ex, name, args, path, depth, caller):
@@ -1059,6 +1111,7 @@ def install_chrono(ex):
     add(r"^<(chrono::)?(NaiveDateTime|NaiveTime) as Timelike>::(num_seconds_from_midnight|hour|minute|second|nanosecond)$", h_timelike)
     add(r"^(chrono::)?NaiveDate::and_hms$", h_and_hms)
     add(r"^(chrono::)?NaiveTime::from_hms$", h_time_from_hms)
+    add(r"^(chrono::)?NaiveTime::from_hms_opt$", h_time_from_hms_opt)
     add(r"^(chrono::)?NaiveDateTime::new$", h_ndt_new)
     add(r"^(chrono::)?NaiveDateTime::date$", h_ndt_date)
     add(r"^(chrono::)?NaiveDateTime::timestamp$", h_ndt_timestamp)
@@ -1235,6 +1288,15 @@ def h_result_branch(ex, name, args, path, depth, caller):
     raise Unsupported("Result::branch of %r" % (v,))
 
 
+def h_result_ok(ex, name, args, path, depth, caller):
+    v = deref(args[0])
+    if isinstance(v, EnumV) and v.enum == "Result":
+        want = "Ok" if name.endswith("::ok") else "Err"
+        yield Outcome("return", path, some(v.f[0]) if v.variant == want else NONE)
+        return
+    raise Unsupported("Result::ok of %r" % (v,))
+
+
 def h_result_from_residual(ex, name, args, path, depth, caller):
     v = deref(args[0])
     yield Outcome("return", path, EnumV("Result", "Err", [v.f[0]]))
@@ -1279,6 +1341,7 @@ def install_heap(ex):
     add(r"^<(Enumerate<|Skip<Enumerate<|Skip<)?core::slice::Iter<.*>>?>? as Iterator>::next$", h_iter_next)
     add(r"^(core::result::)?Result::<.*>::(is_err|is_ok)$", h_result_is)
     add(r"^<(core::result::)?Result<.*> as Try>::branch$", h_result_branch)
+    add(r"^(core::result::)?Result::<.*>::(ok|err)$", h_result_ok)
     add(r"^<(core::result::)?Result<.*> as FromResidual<.*>>::from_residual$", h_result_from_residual)
     add(r"^(log::)?max_level$", h_log_max_level)
     add(r"^<log::Level as PartialOrd<LevelFilter>>::le$", h_log_le)
@@ -1368,6 +1431,15 @@ def h_vec_mut_any(ex, name, args, path, depth, caller):
             return
         ret = IterV(items[a:b], 0, False, True)
         del items[a:b]
+    elif op == "extend_from_slice":
+        src = cur(path, args[1])
+        if isinstance(src, TupleV):
+            src = VecV(src.f)
+        if not isinstance(src, VecV):
+            raise Unsupported("extend_from_slice of %r" % (src,))
+        items += list(src.items)
+    elif op == "clear":
+        items = []
     else:
         raise Unsupported("Vec::" + op)
     p2, wr = writeback(path, args[0], VecV(items), "Vec")
@@ -1575,7 +1647,8 @@ def h_mapc_iter(ex, name, args, path, depth, caller):
     m = mapc_of(path, args[0])
     if m is None:
         return NotImplemented
-    return ex.ret(path, IterV([TupleV([RefV(StrV(k)), RefV(m.d[k])]) for k in sorted(m.d)], 0, False, True))
+    keyv = lambda k: StrV(k) if isinstance(k, str) else IntV(k, 64, False)
+    return ex.ret(path, IterV([TupleV([RefV(keyv(k)), RefV(m.d[k])]) for k in sorted(m.d)], 0, False, True))
 
 
 def h_borrow_keep(ex, name, args, path, depth, caller):
@@ -1620,7 +1693,7 @@ def install_c03(ex):
 
     add(r"^(alloc::string::)?String::(new|with_capacity)$|^Vec::<.*>::(new|with_capacity)$|^BTreeMap::<.*>::new$", h_new_empty)
     add(r"^(alloc::string::)?String::push_str$", h_push_str)
-    add(r"^Vec::<.*>::(push|insert|remove)$|^Vec::<.*>::drain::<.*>$", h_vec_mut_any)
+    add(r"^Vec::<.*>::(push|insert|remove|extend_from_slice|clear)$|^Vec::<.*>::drain::<.*>$", h_vec_mut_any)
     add(r"^<Vec<.*> as (core::ops::)?Index<(core::ops::)?Range(From|To|Full)?(<usize>)?>>::index$", h_vec_range_index)
     add(r"^alloc::slice::<impl \[.*\]>::to_vec$", h_to_vec)
     add(r"^<Vec<.*> as IntoIterator>::into_iter$", h_vec_into_iter)
@@ -1664,7 +1737,8 @@ def h_rule_call(ex, name, args, path, depth, caller):
         raise Unsupported("dyn RuleTrait receiver %r" % (r,))
     fields = cur(path, args[2])
     p2 = path.event(("rule_call", r.name, fields))
-    yield from fork(ex, p2, r.accept, lambda: some(r.result), NONE)
+    accept = r.accept(fields) if callable(r.accept) else r.accept
+    yield from fork(ex, p2, accept, lambda: some(r.result), NONE)
 
 
 def h_range_iter_next(ex, name, args, path, depth, caller):
@@ -1720,7 +1794,8 @@ def install_rules(ex):
     add(r"^BTreeMap::<alloc::string::String, .*>::contains_key::<.*>$", h_mapc_contains)
     add(r"^BTreeMap::<alloc::string::String, .*>::get::<.*>$", h_mapc_get)
     add(r"^BTreeMap::<alloc::string::String, .*>::insert$", h_mapc_insert)
-    add(r"^BTreeMap::<alloc::string::String, .*>::iter$", h_mapc_iter)
+    add(r"^BTreeMap::<alloc::string::String, .*>::iter$|^BTreeMap::<usize, .*>::iter$", h_mapc_iter)
+    add(r"^<core::slice::Iter<'_, .*> as Iterator>::any::<.*>$", h_iter_any)
     add(r"^BTreeMap::<.*>::get_mut::<.*>$", h_mapc_get_mut)
     add(r"^BTreeMap::<usize, .*>::(contains_key)::<.*>$", h_mapc_contains)
     add(r"^BTreeMap::<usize, .*>::get::<.*>$", h_mapc_get)
@@ -2371,7 +2446,7 @@ def h_iter_any(ex, name, args, path, depth, caller):
                 if o.kind == "panic":
                     yield o
                 else:
-                    nxt.append((o.path, acc + [o.value]))
+                    nxt.append((o.path, acc + [o.value if z3.is_expr(o.value) else z3.BoolVal(bool(o.value))]))
         states = nxt
     for p, acc in states:
         yield Outcome("return", p, z3.simplify(z3.Or(acc)) if acc else z3.BoolVal(False))
@@ -2384,6 +2459,7 @@ def h_option_as_ref(ex, name, args, path, depth, caller):
 
 def install_map_updates(ex):
     ex.handlers.insert(0, (re.compile(r"^BTreeMap::<Rc<(types::)?CurrencyInfo>, f64>::insert$"), h_map_insert_sym))
+    ex.handlers.insert(0, (re.compile(r"^BTreeMap::<Rc<(types::)?CurrencyInfo>, f64>::get_mut::<.*>$"), h_map_get_mut_sym))
 
 
 def install_phrases(ex):
@@ -2406,6 +2482,9 @@ def h_str_replace_chars(ex, name, args, path, depth, caller):
     if not (isinstance(pat, StrV) and pat.is_concrete() and isinstance(to, StrV) and to.is_concrete()):
         raise Unsupported("str::replace with a symbolic pattern on a written literal")
     if pat.t == "":
+        if to.t == "":
+            yield Outcome("return", path, v)      # nothing is inserted between the characters
+            return
         raise Unsupported("str::replace with an empty pattern (inserts between all characters)")
     if any(ch.isdigit() for ch in pat.t):
         raise Unsupported("a separator that contains digits")
@@ -2473,6 +2552,64 @@ def h_str_eq_written(ex, name, args, path, depth, caller):
     raise Unsupported("str comparison on %r" % (a,))
 
 
+def h_str_chars_iter(ex, name, args, path, depth, caller):
+    """str::chars as a plain iterator of chars (filter / map / collect style code)"""
+    v = cur(path, args[0])
+    if isinstance(v, DecStrV):
+        items = [CharIntV(char_value(c).t, c) for c in v.chars]
+    elif isinstance(v, StrV) and v.is_concrete():
+        items = [CharIntV(ord(c), ("c", c)) for c in v.t]
+    else:
+        raise Unsupported("str::chars on %r" % (v,))
+    yield Outcome("return", path, IterV(items, 0, False, True))
+
+
+def h_iter_filter(ex, name, args, path, depth, caller):
+    it = deref(args[0])
+    if not isinstance(it, IterV):
+        raise Unsupported("Iterator::filter on %r" % (it,))
+    f = closure_fn(ex, name)
+    states = [(path, [])]
+    for el in it.items[it.idx:]:
+        nxt = []
+        for p, acc in states:
+            for o in ex.run(f, [RefV(args[1]), RefV(el)], p, depth + 1):
+                if o.kind == "panic":
+                    yield o
+                    continue
+                keep = o.value if z3.is_expr(o.value) else z3.BoolVal(bool(o.value))
+                keep = z3.simplify(keep)
+                if z3.is_true(keep):
+                    nxt.append((o.path, acc + [el]))
+                elif z3.is_false(keep):
+                    nxt.append((o.path, acc))
+                else:
+                    py, pn = o.path.add(keep), o.path.add(z3.Not(keep))
+                    if ex.feasible(py):
+                        nxt.append((py, acc + [el]))
+                    if ex.feasible(pn):
+                        nxt.append((pn, acc))
+        states = nxt
+    for p, acc in states:
+        yield Outcome("return", p, IterV(acc, 0, False, True))
+
+
+def h_collect_string_chars(ex, name, args, path, depth, caller):
+    it = deref(args[0])
+    if not isinstance(it, IterV):
+        return NotImplemented
+    chars = []
+    for x in it.items[it.idx:]:
+        x = deref(x)
+        if isinstance(x, CharIntV):
+            chars.append(x.src)
+        elif isinstance(x, IntV) and z3.is_int_value(z3.simplify(x.t)):
+            chars.append(("c", chr(z3.simplify(x.t).as_long())))
+        else:
+            raise Unsupported("collecting %r into a String" % (x,))
+    return ex.ret(path, DecStrV(chars))
+
+
 def install_number_tokeniser(ex):
     def add(rx, fn):
         ex.handlers.insert(0, (re.compile(rx), fn))
@@ -2483,3 +2620,9 @@ def install_number_tokeniser(ex):
     add(r"^core::num::<impl i64>::from_str_radix$", h_from_str_radix)
     add(r"^<(alloc::string::)?String as (core::ops::)?Index<(core::ops::)?RangeFull>>::index$", h_identity0)
     add(r"^<str as PartialEq>::(eq|ne)$", h_str_eq_written)
+    add(r"^core::str::<impl str>::chars$", h_str_chars_iter)
+    add(r"^<Chars<'_> as Iterator>::next$", h_iter_next)
+    add(r"^core::option::Option::<.*>::unwrap_or$", h_option_unwrap_or)
+    add(r"^<Chars<'_> as Iterator>::filter::<.*>$", h_iter_filter)
+    add(r"^<Filter<Chars<'_>, .*> as Iterator>::map::<.*>$|^<Chars<'_> as Iterator>::map::<.*>$", h_iter_map)
+    add(r"^<(core::iter::)?Map<.*Chars<'_>.*> as Iterator>::collect::<(alloc::string::)?String>$|^<Filter<Chars<'_>, .*> as Iterator>::collect::<(alloc::string::)?String>$|^<Chars<'_> as Iterator>::collect::<(alloc::string::)?String>$", h_collect_string_chars)
